@@ -251,6 +251,7 @@ func runAddr(c *aCase) (obs *aObs) {
 	}()
 	switch c.Op {
 	case "parse":
+		c.S = strings.ReplaceAll(c.S, "unihost", "\u00fcn\u00efhost") // a host name outside ASCII
 		v, err := parseAny(c.S, c.Route == "final")
 		if err != nil {
 			obs.Err = err.Error()
